@@ -577,9 +577,27 @@ func (ex *Exec) visit(fr *frame, instr ssa.Instruction) cont {
 				ex.goPanic("runtime error: invalid memory address or nil pointer dereference")
 			}
 			arr := (*x).(Array)
+			if !idx.isConst() && ex.onlyLoaded(instr) {
+				if _, ok := ex.symSelect(arr, idx); ok {
+					if !ex.decide(ex.inRangeTerm(idx, instr.Index.Type(), len(arr))) {
+						ex.goPanic(fmt.Sprintf("runtime error: index out of range [symbolic] with length %d", len(arr)))
+					}
+					fr.env[instr] = &SymPtr{arr: arr, idx: idx}
+					break
+				}
+			}
 			i := ex.indexIn(idx, instr.Index.Type(), len(arr))
 			fr.env[instr] = &arr[i]
 		case Slice:
+			if !idx.isConst() && ex.onlyLoaded(instr) {
+				if _, ok := ex.symSelect(x.a, idx); ok {
+					if !ex.decide(ex.inRangeTerm(idx, instr.Index.Type(), len(x.a))) {
+						ex.goPanic(fmt.Sprintf("runtime error: index out of range [symbolic] with length %d", len(x.a)))
+					}
+					fr.env[instr] = &SymPtr{arr: x.a, idx: idx}
+					break
+				}
+			}
 			i := ex.indexIn(idx, instr.Index.Type(), len(x.a))
 			fr.env[instr] = &x.a[i]
 		default:
@@ -684,11 +702,93 @@ func (ex *Exec) indexIn(idx *Term, it types.Type, n int) int {
 		return int(i)
 	}
 	// symbolic index: out-of-range check, then concretise
-	inRange := mkCmp(OpULT, idx, mkBV(idx.w, uint64(n)))
-	if !ex.decide(inRange) {
+	if !ex.decide(ex.inRangeTerm(idx, it, n)) {
 		ex.goPanic(fmt.Sprintf("runtime error: index out of range [symbolic] with length %d", n))
 	}
 	return int(ex.concretize(idx))
+}
+
+// inRangeTerm: 0 <= idx < n for an index of Go type it.
+func (ex *Exec) inRangeTerm(idx *Term, it types.Type, n int) *Term {
+	var wide *Term
+	if isSigned(it) {
+		wide = mkSExt(idx, 64)
+	} else {
+		wide = mkZExt(idx, 64)
+	}
+	return mkCmp(OpULT, wide, mkBV(64, uint64(n)))
+}
+
+// SymPtr is the address of arr[idx] for a symbolic idx into a table of
+// scalars; loads become an ite chain, anything else concretises the index.
+type SymPtr struct {
+	arr []Value
+	idx *Term
+}
+
+func (ex *Exec) symSelect(arr []Value, idx *Term) (Value, bool) {
+	// all elements must be terms of one sort
+	var first *Term
+	for _, e := range arr {
+		t, ok := e.(*Term)
+		if !ok {
+			return nil, false
+		}
+		if first == nil {
+			first = t
+		} else if t.kind != first.kind || t.w != first.w {
+			return nil, false
+		}
+	}
+	if first == nil || len(arr) > 1024 {
+		return nil, false
+	}
+	// group by value: default = most common
+	groups := map[*Term][]int{}
+	var order []*Term
+	for i, e := range arr {
+		t := e.(*Term)
+		if _, ok := groups[t]; !ok {
+			order = append(order, t)
+		}
+		groups[t] = append(groups[t], i)
+	}
+	def := order[0]
+	for _, t := range order {
+		if len(groups[t]) > len(groups[def]) {
+			def = t
+		}
+	}
+	res := def
+	for _, t := range order {
+		if t == def {
+			continue
+		}
+		var cs []*Term
+		for _, i := range groups[t] {
+			cs = append(cs, mkEq(idx, mkBV(idx.w, uint64(i))))
+		}
+		res = mkIte(mkOr(cs...), t, res)
+	}
+	return res, true
+}
+
+// onlyLoaded reports whether every use of the address is a load.
+func (ex *Exec) onlyLoaded(instr *ssa.IndexAddr) bool {
+	refs := instr.Referrers()
+	if refs == nil {
+		return false
+	}
+	for _, r := range *refs {
+		u, ok := r.(*ssa.UnOp)
+		if !ok || u.Op != token.MUL {
+			if _, isDbg := r.(*ssa.DebugRef); isDbg {
+				continue
+			}
+			return false
+		}
+	}
+	return true
 }
 
 func (ex *Exec) concreteInt(t *Term, what string) int {
@@ -706,8 +806,7 @@ func (ex *Exec) strIndex(s Str, idx *Term, it types.Type) Value {
 		}
 		return s.b[i]
 	}
-	inRange := mkCmp(OpULT, idx, mkBV(idx.w, uint64(len(s.b))))
-	if !ex.decide(inRange) {
+	if !ex.decide(ex.inRangeTerm(idx, it, len(s.b))) {
 		ex.goPanic("runtime error: string index out of range [symbolic]")
 	}
 	if len(s.b) <= 64 {
